@@ -145,6 +145,10 @@ def scenarios(tier):
         {"name": "3:rename-x|select-e|select-e (e inactive)", "cfg_ref": ["vf.props.c06", "cfg", []], "prelude": [{"s": "A", "op": "select", "m": "INBOX"}],
          "concurrent": {"A": [{"s": "A", "op": "rename", "m": "x", "to": "y"}], "B": [{"s": "B", "op": "select", "m": "e"}], "C": [{"s": "C", "op": "select", "m": "e"}]},
          "loopopts": {"preempt_timers": False}},
+        # a mailbox is renamed while another session names it (old name / new name): afterwards the mailbox list is that of some order
+        {"name": "rename-x|status-x,status-y", "cfg_ref": ["vf.props.c06", "cfg", []], "prelude": [{"s": "A", "op": "select", "m": "INBOX"}, {"s": "B", "op": "select", "m": "INBOX"}],
+         "concurrent": {"A": [{"s": "A", "op": "rename", "m": "x", "to": "y"}], "B": [{"s": "B", "op": "status", "m": "x"}, {"s": "B", "op": "status", "m": "y"}]},
+         "loopopts": {"preempt_timers": False}},
         # a mailbox with an inferior is deleted (kept as a \\Noselect placeholder) while APPEND / COPY into it wait in its queue
         {"name": "delete-parent|append-into", "cfg_ref": ["vf.props.c06", "cfg", []], "prelude": [{"s": "A", "op": "select", "m": "INBOX"}, {"s": "B", "op": "select", "m": "INBOX"}],
          "concurrent": {"A": [{"s": "A", "op": "delete", "m": "p"}], "B": [{"s": "B", "op": "append", "m": "p", "cid": "q9"}, {"s": "B", "op": "noop"}]},
@@ -174,6 +178,10 @@ def scenarios(tier):
     return S
 
 
+THOROUGH_ONLY = ("delete-parent|copy-into", "expunge|idle,done slow reader", "3:expunge|close, idling slow reader", "expunge|lsub,noop slow reader",
+                 "store,store|idle,done slow reader")
+
+
 def run(tier, seed, jobs) -> Result:
     res = Result(level="model_checking")
     bound = 2
@@ -186,6 +194,8 @@ def run(tier, seed, jobs) -> Result:
     deadline = _t.time() + (100000 if tier == "quick" else 2400)  # thorough: 40 minutes, then the remaining scenarios stop at one deviation
     heavy = ("move1|fetch3", "move1|move3", "move|moveback", "copy|rename-dst", "re-examine,noop|move")
     for sc in scenarios(tier):
+        if tier == "quick" and sc["name"] in THOROUGH_ONLY:
+            continue  # (variants of scenarios that stay in the quick tier; C01 / C04 run some of them in their own schedule parts)
         b = bound
         if tier == "quick" and sc["name"] in heavy:
             b = 1  # >100 choice points each: two deviations are explored in the thorough tier (and copy|delete-dst, copy|copyback stay at 2 here)
